@@ -155,6 +155,10 @@ def _binary_binned_auprc_update_input_check(
             raise ValueError(
                 f"`num_tasks = 1`, `input` is expected to be 1D or 2D tensor, but got shape {input.shape}."
             )
+        elif input.ndim == 2 and input.shape[0] != 1:
+            raise ValueError(
+                f"`num_tasks = 1`, `input`'s shape is expected to be (num_samples,) or (1, num_samples), but got shape {input.shape}."
+            )
     else:
         # for num_tasks > 1, accept 2D tensor only, and the shape should be (num_tasks, num_samples)
         if input.ndim != 2:
